@@ -235,6 +235,8 @@ var c06prog *core.Prog
 func runC06(c *Ctx) {
 	R := c.R
 	c06prog = c.P
+	core.InlineLockedAccessors = true
+	defer func() { core.InlineLockedAccessors = false }()
 	nbuilders := 0
 	for _, d := range Drivers(c.P) {
 		roles := roleTable[d.Name]
